@@ -86,6 +86,13 @@ def opOf : Sexp → Option Op
   | .list [.atom "rename", h, o, n] => do pure (.rename (← pathOf h) (← pathOf o) (← pathOf n))
   | .list [.atom "create", h, k] => do pure (.createNested (← pathOf h) (← pathOf k))
   | .list [.atom "clear", h] => do pure (.clear (← pathOf h))
+  | .list [.atom "pop", h, k] => do pure (.pop (← pathOf h) (← pathOf k))
+  | .list [.atom "popitem", h] => do pure (.popitem (← pathOf h))
+  | .list [.atom "setdefault", h, k, v] => do pure (.setdefault (← pathOf h) (← pathOf k) (← treeOf v))
+  | .list [.atom "refine", h, ns] => do
+      match (← namesOf ns) with
+      | some l => pure (.refineNames (← pathOf h) l)
+      | none => none
   | _ => none
 
 end C01D
